@@ -2812,7 +2812,8 @@ impl<'store> QueryIter<'store> {
                 Box::new(iter.filter_text_byref(text, true, " "))
             }
             &Constraint::Text(text, TextMode::CaseInsensitive) => {
-                Box::new(iter.filter_text_byref(text, false, " "))
+                //(filter_text lower-cases the reference text, filter_text_byref expects that done)
+                Box::new(iter.filter_text(text.to_string(), false, " "))
             }
             Constraint::Regex(regex) => Box::new(iter.filter_text_regex(regex.clone(), " ")),
             &Constraint::TextVariable(var) => {
@@ -3514,7 +3515,8 @@ impl<'store> QueryIter<'store> {
                 Box::new(iter.filter_text_byref(text, true))
             }
             &Constraint::Text(text, TextMode::CaseInsensitive) => {
-                Box::new(iter.filter_text_byref(text, false))
+                //(filter_text lower-cases the reference text, filter_text_byref expects that done)
+                Box::new(iter.filter_text(text.to_string(), false))
             }
             Constraint::Regex(regex) => Box::new(iter.filter_text_regex(regex.clone())),
             &Constraint::TextRelation { var, operator } => {
